@@ -13,7 +13,18 @@ func init() {
 	if p == nil {
 		return
 	}
+	large := map[string]string{}
+	for k, v := range stubs {
+		large[k] = v
+	}
+	large["io.ReadAll"] = "verifStubReadAllLarge"
+	large["io.LimitReader"] = "verifStubLimitReader"
+	large["unicode/utf8.Valid"] = "verifStubBinaryInput"
 	p.Pkgs = append(p.Pkgs, "cmd/setec")
+	p.Harnesses = append(p.Harnesses, &HarnessSpec{Name: "verifHarnessC18RunPutLarge", Pkg: "cmd/setec", Stubs: large, Params: map[string]int{},
+		ExpectReach: []string{"end"}, NoNative: "the CLI's client, stdin and file are stubs in this harness",
+		Desc: "runPut with a binary input of any length below 2^40 (opaque bytes, symbolic length), file and pipe: exactly the bytes read are sent"})
+	p.Bounds["CLI large input"] = "binary input of symbolic length 1..2^40-1"
 	p.Bounds["CLI input"] = "every byte vector of length 0..3 (quick) / 0..4 (thorough), all combinations of --verbatim/--trim-space/--empty-ok, file and pipe"
 	p.Harnesses = append(p.Harnesses,
 		&HarnessSpec{Name: "verifHarnessC18CheckPutText", Pkg: "cmd/setec", Stubs: stubs, Params: map[string]int{"inputlen": 3}, ThoroughParams: map[string]int{"inputlen": 4},
